@@ -12,7 +12,8 @@ import re
 from rulesem import check as rc
 from rulesem.alg import parse, is_var, Malformed
 from rules.c01 import run_rules, UNOBSERVABLE, UNCLASSIFIED
-from tmpl import site, origin_locals_indexed
+from tmpl import site, origin_locals_indexed, flows_from, origin_locals
+from mir import operand_places
 
 BUILD = 'executor::Builder::<S>::build_id_subscriber'
 JOIN_OPS = {'join': 'Join', 'hashjoin': 'HashJoin', 'mergejoin': 'MergeJoin'}
@@ -309,6 +310,7 @@ def run(ctx):
     optimizer_always_runs(ctx, prog)
     limit_is_constant(ctx, prog)
     subquery_positions(ctx, prog)
+    scans_honour_their_column_list(ctx, prog)
 
 
 def subquery_clauses(ctx, prog):
@@ -557,3 +559,78 @@ def subquery_positions(ctx, prog):
            [site(bs, c.bb) for c in wh],
            what='IN / EXISTS are accepted anywhere in WHERE but only unnested as conjuncts: `where a = 1 or exists (select ..)` panics the '
                 'executor builder (column $1.1 not found from input)')
+
+
+def scans_honour_their_column_list(ctx, prog):
+    """C17-R8: the optimizer prunes the column list of every Scan node (column pruning), so a scan implementation
+    must produce exactly the columns it was asked for."""
+    R8 = 'C17-R8'
+    ctx.rule(R8, 'column pruning rewrites the list of every Scan to the columns the query uses, so each implementation behind the '
+                 'builder\'s Scan arm must BUILD its output from that list: the chunks a system table scan yields, the scan request of '
+                 'a table scan and the projection over a view all derive from the `columns` they were given. A scan that only looks '
+                 'at the length of the list (to assert that it is the full table) refuses every projected query')
+
+    def field_local(body, name):
+        for v in body.rec['vars']:
+            if v['name'] == name:
+                return v['pl']
+        return None
+
+    def reads_field(pl):
+        return lambda kind, payload, bb: kind == 'assign' and any(
+            q['l'] == pl['l'] and q['p'][:len(pl['p'])] == pl['p'] for q in operand_places(payload))
+
+    n = 0
+    SYS = 'executor::system_table_scan::SystemTableScan::<S>::execute::{closure#0}'
+    b = prog.body(SYS)
+    if ctx.anchor(R8, SYS, b is not None):
+        pl = field_local(b, 'self__columns')
+        if ctx.anchor(R8, SYS + ' captures self.columns', pl is not None):
+            ys = [(i, bl['term']) for i, bl in enumerate(b.blocks) if not bl['cleanup'] and bl['term']['k'] == 'yield']
+            good = [i for i, t in ys if any(flows_from(b, q['l'], reads_field(pl), depth=16) for q in operand_places(t['value']))]
+            n += 1
+            ctx.functions_analysed.add(b.name)
+            ctx.ob(R8, 'SystemTableScan·output-built-from-columns', bool(good),
+                   f'{len(ys)} yield points; deriving from self.columns: {good}', [site(b, i) for i, _ in ys][:3],
+                   what='SystemTableScan ignores the column list of its Scan node (it only asserts that the list is the whole table): any '
+                        'query that does not use every column of a system table - `select table_name from pg_catalog.pg_tables`, '
+                        '`select count(*) from pg_catalog.pg_attribute` - is accepted, optimized (column pruning) and then dies in the executor')
+    TS = 'executor::table_scan::TableScanExecutor::<S>::execute::{closure#0}'
+    b = prog.body(TS)
+    if ctx.anchor(R8, TS, b is not None):
+        pl = field_local(b, 'self__columns')
+        scans = [c for c in b.calls if re.search(r'Transaction::scan$', c.fn or '')]
+        if ctx.anchor(R8, TS + ' scan request', pl is not None and bool(scans)):
+            ok = all(any(a['k'] != 'const' and flows_from(b, a['pl']['l'], reads_field(pl), depth=16) for a in c.args) for c in scans)
+            n += 1
+            ctx.functions_analysed.add(b.name)
+            ctx.ob(R8, 'TableScanExecutor·scan-request-built-from-columns', ok,
+                   f'{len(scans)} Transaction::scan call(s); an argument derives from self.columns: {ok}', [site(b, c.bb) for c in scans],
+                   what='TableScanExecutor requests columns from the storage that do not come from the column list of its Scan node')
+    found = None
+    for g in prog.bodies.values():
+        if not g.name.startswith('executor::Builder::<S>::'):
+            continue
+        for c in g.calls:
+            if not (c.fn or '').endswith('ProjectionExecutor::execute') or len(c.args) < 2 or c.args[1]['k'] == 'const':
+                continue
+            if not flows_from(g, c.args[1]['pl']['l'], lambda k, p_, bb: k == 'call' and (p_.get('fn') or '').endswith('StreamSubscriber::subscribe')):
+                continue
+            found = (g, c)
+    if ctx.anchor(R8, 'Builder: ProjectionExecutor over a view subscriber', found is not None):
+        g, c = found
+        projs = origin_locals(g, c.args[0]['pl']['l'], depth=4)
+        from_cols = lambda k, p_, bb: k == 'call' and re.search(r'::iter$|::into_iter$', p_.get('fn') or '') is not None \
+            and 'ColumnRefId' in g.local_ty(p_['dest']['l'])
+        adds = []
+        for a_ in g.calls:
+            if (a_.fn or '').endswith('RecExpr::<L>::add') and len(a_.args) == 2 and a_.args[0]['k'] != 'const' and a_.args[1]['k'] != 'const' \
+                    and origin_locals(g, a_.args[0]['pl']['l'], depth=3) & projs:
+                adds.append((a_.bb, flows_from(g, a_.args[1]['pl']['l'], from_cols, depth=10)))
+        n += 1
+        ctx.functions_analysed.add(g.name)
+        ctx.ob(R8, 'view-scan·projection-built-from-columns', any(ok for _, ok in adds),
+               f'{g.name}: nodes added to the projection over the view: {adds}', [site(g, c.bb)],
+               what='the projection placed over a view does not build its expression list from the column list of the Scan node')
+    ctx.floor(R8, n, 3, 'scan implementations behind the Scan arm')
+
